@@ -272,6 +272,51 @@ def check_regconst(item):
     return []
 
 
+def check_numarray(item):
+    """An array with a NUMERIC dtype is mapped element by element like any other: whatever the
+    handler for constants returns (a Fraction, a Variable) arrives in the result unchanged."""
+    from fractions import Fraction
+
+    from pymbolic.mapper import IdentityMapper
+    import pymbolic.primitives as p
+    dt, shape, cached, how = item
+    shape = tuple(shape)
+    n = int(np.prod(shape)) if shape else 1
+    vals = [(k % 2 == 0) if dt == "bool" else k + 1 for k in range(n)]
+    arr = np.array(vals, dtype=dt).reshape(shape)
+
+    class M(IdentityMapper):
+        def map_constant(self, expr, *a, **k):
+            if how == "identity":
+                return expr
+            if how == "halve":
+                return Fraction(int(expr.real), 2) if dt != "complex128" else expr / 2
+            return p.Variable(f"c{int(expr.real)}")
+    if cached:
+        return []           # memoizing identity mappers refuse arrays (recorded elsewhere)
+    try:
+        res = M()(arr)
+    except RecursionError:
+        raise
+    except Exception as e:  # noqa: BLE001
+        return [("numeric-array", f"numeric-array|{dt}|{how}", f"{dt} array of shape {shape} "
+                 f"through a {how} mapper raised {e!r}")]
+    ok = isinstance(res, np.ndarray) and res.shape == arr.shape
+    if ok:
+        for idx in np.ndindex(arr.shape):
+            c = arr[idx]
+            want = c if how == "identity" else (
+                (Fraction(int(c.real), 2) if dt != "complex128" else c / 2) if how == "halve"
+                else p.Variable(f"c{int(c.real)}"))
+            got = res[idx]
+            if type(got) is not type(want) and how != "identity" or got != want:
+                ok = False
+    if not ok:
+        return [("numeric-array", f"numeric-array|{dt}|{how}",
+                 f"{dt} array {arr.tolist()!r} through a {how} mapper came back as {res!r}")]
+    return []
+
+
 BUILTIN_NAMES = {
     "Variable": "map_variable", "Wildcard": "map_wildcard", "DotWildcard": "map_dot_wildcard",
     "StarWildcard": "map_star_wildcard", "FunctionSymbol": "map_function_symbol",
@@ -679,14 +724,15 @@ def _occ_specs(spec):
 class C04(Check):
     pid = "C04"
     level = "exploration"
-    rule = ("dispatch: all 85 generated user classes (hierarchies of depth 1-2 over Expression, "
+    rule = ("dispatch: all 93 generated user classes (hierarchies of depth 1-2 over Expression, "
             "Variable, Sum, CommonSubexpression; levels decorated+0/1 field, undecorated, legacy; "
             "init=False / hash=False; explicit handler names, also ones equal to the base's) "
             "x all subsets of the handlers in their chain x {Mapper, CachedMapper} x {__call__, "
             "rec, rec_fallback} x 3 extra-argument shapes, and with the selected handler raising each "
             "of 8 exception classes (must reach the caller, no other handler tried); instances of a "
             "number class (and of a subclass) before / while / after the class is registered at run "
-            "time x 6 entry points; 23 kinds of foreign objects; derived "
+            "time x 6 entry points; arrays of 5 numeric dtypes x 3 shapes through identity / "
+            "constant-halving / constant-to-variable mappers; 23 kinds of foreign objects; derived "
             "handler names of all built-in and generated classes. traversals: every constructor "
             "shape of the full alphabet with every leaf combination and every (parent, position, "
             "child) nesting (thorough: plus three-level chains over 20 shapes) x extra-argument shapes (quick 3, thorough 6) x {identity, rewriting "
@@ -735,6 +781,13 @@ class C04(Check):
                                       "collector"):
                             yield ("regconst", (phase, cname, cached, entry))
 
+        def numarrays():
+            for dt in ("int64", "float64", "int8", "bool", "complex128"):
+                for shape in ((3,), (2, 2), ()):
+                    for cached in (0, 1):
+                        for how in ("identity", "halve", "to-variable"):
+                            yield ("numarray", (dt, shape, cached, how))
+
         def names():
             for n in BUILTIN_NAMES:
                 yield ("name", ("builtin", n))
@@ -744,6 +797,7 @@ class C04(Check):
         shapes = "q" if tier == "quick" else "t"
         fams = [
             ("dispatch", dispatch), ("foreign", foreign), ("registered-constant-class", regconst),
+            ("numeric-arrays", numarrays),
             ("names", names),
             ("trav-depth2", lambda: (("trav", s, shapes)
                                      for s in gen.depth2(TRAV_CTORS, leaves))),
@@ -783,9 +837,9 @@ class C04(Check):
     def check_item(self, family, item, tier):
         r = Res()
         kind = item[0]
-        if kind in ("dispatch", "foreign", "name", "regconst"):
+        if kind in ("dispatch", "foreign", "name", "regconst", "numarray"):
             fn = {"dispatch": check_dispatch, "foreign": check_foreign, "name": check_name,
-                  "regconst": check_regconst}[kind]
+                  "regconst": check_regconst, "numarray": check_numarray}[kind]
             r.evals += 1
             r.keys.append(item)
             for k, sig, detail in fn(tuple(item[1])):
